@@ -954,7 +954,14 @@ def check_ctor_case(ctx, case):
             cls(name='g', inertia_moment=J, helix_angle=U.Angle(x, case['u']), pressure_angle=U.Angle(case['pa'], 'deg'), **kw)
         elif what == 'pwm':
             m = DCMotor(name='m', inertia_moment=J, no_load_speed=U.AngularSpeed(1, 'rad/s'), maximum_torque=U.Torque(1, 'Nm'))
-            m.pwm = x
+            m.pwm = 0.25
+            try:
+                m.pwm = x
+            except Exception:
+                # a rejected duty cycle must not be stored
+                if m.pwm != 0.25:
+                    ctx.violation(case, {'why': f'the motor holds duty cycle {m.pwm} after the assignment of {x} was rejected'})
+                raise
         got = ('ok',)
     except Exception as ex:  # noqa: BLE001
         got = ('err', type(ex).__name__)
